@@ -81,6 +81,7 @@ type Obs struct {
 	Rm     []RmObs           `json:"rm"`
 	Mails  []Mail            `json:"mails"`
 	Sms    []SMS             `json:"sms"`
+	SmsTried []SMS           `json:"sms_tried,omitempty"`
 	Calls  []string          `json:"calls"`
 	Err    bool              `json:"err"`
 	Taints []Taint           `json:"taints"`
@@ -409,6 +410,10 @@ func (w *World) observe(k *Know, browser string, r respObs, mails0, sms0, log0 i
 	for _, s := range w.sms.msgs[sms0:] {
 		o.Sms = append(o.Sms, SMS{hx(s.To), hx(s.Text)})
 	}
+	for _, s := range w.sms.tried {
+		o.SmsTried = append(o.SmsTried, SMS{hx(s.To), hx(s.Text)})
+	}
+	w.sms.tried = nil
 	o.Calls = append([]string{}, w.be.calls...)
 	o.Taints = w.scan(k, log0)
 	o.NLog = len(w.log.lines) - log0
